@@ -74,6 +74,7 @@ type Orig struct {
 	Cgroups  bool     `json:"cgroups,omitempty"`
 	Oom      bool     `json:"oom,omitempty"`
 	NilParts bool     `json:"nil_parts,omitempty"` // leave absent sections nil instead of empty
+	DevRules bool     `json:"dev_rules,omitempty"` // the original's resources carry device cgroup rules
 }
 
 type Case struct {
@@ -113,8 +114,8 @@ func followUp(c Case) Case {
 }
 
 var (
-	annKeys = []string{"a1", "a2", "a3"}
-	envKeys = []string{"E1", "E2", "E3"}
+	annKeys = []string{"a1", "a2", "a3", "a10", "+a"} // "a10": "a1" is a prefix of it; "+a": first byte sorts below the dash
+	envKeys = []string{"E1", "E2", "E3", "E10"}
 	// keys that themselves begin with a dash: legal for items of the original container and
 	// for removals ("--a1" marks "-a1"); they cannot be SET through an adjustment (a set of
 	// "-a1" is the removal of "a1"), so they only occur in the original and in lone removals
@@ -124,8 +125,8 @@ var (
 	// device path (a mount and a device at one path are different items), and "/m2" / "/m2/"
 	// are two spellings of one directory (cases using both are judged by C03's differential
 	// oracle only, see Expect.SpellingMix).
-	mountKeys  = []string{"/m1", "/m2/", "/m1/./sub", "/dev/d1", "/m2"}
-	devKeys    = []string{"/dev/d1", "/dev/d2", "/dev/d3"}
+	mountKeys  = []string{"/m1", "/m2/", "/m1/./sub", "/dev/d1", "/m2", "/m10"}
+	devKeys    = []string{"/dev/d1", "/dev/d2", "/dev/d3", "/dev/d10", "/dev/d1/x"}
 	cdiKeys    = []string{"v.com/c=x1", "v.com/c=x2", "v.com/c=x3"}
 	rlimitKeys = []string{"RLIMIT_NOFILE", "RLIMIT_NPROC", "RLIMIT_CORE"}
 	hugeKeys   = []string{"2MB", "1GB"}
@@ -201,6 +202,10 @@ type Bias struct {
 	Append      int      // percent chance to make 2-5 plugins append to one hook list / add distinct rlimit types or CDI names
 	NearMiss    int      // percent chance to force two plugins onto sibling items (same family / field, different key / target)
 	MaxPar      int
+	// ReleaseBehindDrop: percent chance (creation requests, three or more plugins) of the story
+	// "the response that carries a dropped ignore-failure update also releases an item of an
+	// earlier plugin, which a later plugin sets again"
+	ReleaseBehindDrop int
 }
 
 func genOrig(t *rapid.T, full bool) Orig {
@@ -220,6 +225,7 @@ func genOrig(t *rapid.T, full bool) Orig {
 		Cgroups:  full || rapid.Bool().Draw(t, "ocg"),
 		Oom:      full || rapid.Bool().Draw(t, "ooom"),
 		NilParts: rapid.Bool().Draw(t, "nilparts"),
+		DevRules: rapid.IntRange(0, 2).Draw(t, "devrules") == 0,
 	}
 	return o
 }
@@ -399,13 +405,19 @@ func GenCase(t *rapid.T, b Bias) Case {
 		forceAppend(t, &c)
 	}
 	if len(c.Chain) >= 3 && rapid.IntRange(0, 99).Draw(t, "ignstory") < b.Collide/4+b.IgnoreFlags/4 {
-		forceIgnoredStory(t, &c)
+		forceIgnoredStory(t, &c, false)
+	}
+	if c.Kind == "create" && len(c.Chain) >= 3 && rapid.IntRange(0, 99).Draw(t, "relbehinddrop") < b.ReleaseBehindDrop {
+		forceIgnoredStory(t, &c, true)
 	}
 	if len(c.Chain) >= 2 && rapid.IntRange(0, 99).Draw(t, "nearmiss") < b.NearMiss {
 		forceNearMiss(t, &c)
 	}
 	if c.Kind == "create" && gen.Uniform(t, "bulk", 6) == 0 {
 		forceBulk(t, &c)
+	}
+	if b.Updates > 0 && gen.Uniform(t, "bulktargets", 10) == 0 {
+		forceBulkTargets(t, &c)
 	}
 	if c.Kind == "update" && b.IgnoreFlags > 0 && gen.Uniform(t, "selfdupstory", 8) == 0 {
 		forceSelfDupStory(t, &c)
@@ -511,6 +523,35 @@ func forceBulk(t *rapid.T, c *Case) {
 					owned[k] = true
 				}
 			}
+		}
+	}
+}
+
+// forceBulkTargets makes the plugins of a request update 9..14 distinct third-party
+// containers, and lets later updates name some of them again (another field).
+func forceBulkTargets(t *rapid.T, c *Case) {
+	n := 9 + gen.Uniform(t, "btn", 6)
+	all := allResFields()
+	f1 := gen.Uniform(t, "btf1", len(all))
+	f2 := (f1 + 1 + gen.Uniform(t, "btf2", len(all)-1)) % len(all)
+	i := gen.Uniform(t, "bti", len(c.Chain))
+	for k := 0; k < n; k++ {
+		// spread over the plugins from i on, in target order
+		q := i + (k*(len(c.Chain)-i))/n
+		c.Chain[q].Updates = append(c.Chain[q].Updates, Upd{Target: fmt.Sprintf("T%d", 10+k), Fields: []string{all[f1]}})
+	}
+	for r := 1 + gen.Uniform(t, "btr", 3); r > 0; r-- {
+		k := gen.Uniform(t, "btk", n)
+		if gen.Uniform(t, "btninth", 2) == 0 {
+			k = 8 // the ninth distinct target
+		}
+		q := len(c.Chain) - 1 - gen.Uniform(t, "btq", 2)
+		if q < 0 {
+			q = 0
+		}
+		tgt := fmt.Sprintf("T%d", 10+k)
+		if !plugHasField(&c.Chain[q], tgt, all[f2]) && !plugHasField(&c.Chain[q], tgt, all[f1]) {
+			c.Chain[q].Updates = append(c.Chain[q].Updates, Upd{Target: tgt, Fields: []string{all[f2]}})
 		}
 	}
 }
@@ -625,7 +666,7 @@ func plugHasField(s *Script, target, field string) bool {
 // SEPARATE later update of the same response marked ignore-failure, G (which collides and
 // is dropped); plugin k then sets F of X again (flagged or not). F is owned by j, so k must
 // conflict (or be dropped if flagged) - whatever the dropped update did to the bookkeeping.
-func forceIgnoredStory(t *rapid.T, c *Case) {
+func forceIgnoredStory(t *rapid.T, c *Case, withRelease bool) {
 	n := len(c.Chain)
 	i := rapid.IntRange(0, n-3).Draw(t, "si")
 	j := rapid.IntRange(i+1, n-2).Draw(t, "sj")
@@ -655,6 +696,23 @@ func forceIgnoredStory(t *rapid.T, c *Case) {
 		b.Updates = append(b.Updates, Upd{Target: x, Fields: []string{g}, Ignore: true})
 	} else {
 		b.Updates = append(b.Updates, Upd{Target: x, Fields: []string{f}}, Upd{Target: x, Fields: []string{g}, Ignore: true})
+	}
+	if c.Kind == "create" && (withRelease || gen.Uniform(t, "srel", 2) == 0) {
+		// the response that carries the dropped update also releases an item the first plugin
+		// set on the created container; the third plugin sets it again (no conflict)
+		fam := gen.Pick(t, "srelfam", removableFams)
+		key := gen.Pick(t, "srelkey", keysOf(fam))
+		free := true
+		for q := range c.Chain {
+			if hasOp(&c.Chain[q], fam, key) >= 0 {
+				free = false
+			}
+		}
+		if free && !(fam == "mount" && (key == "/m2" || key == "/m2/")) {
+			a.Ops = append(a.Ops, Op{Fam: fam, Key: key, Act: "set"})
+			b.Ops = append(b.Ops, Op{Fam: fam, Key: key, Act: "del"})
+			d.Ops = append(d.Ops, Op{Fam: fam, Key: key, Act: "set"})
+		}
 	}
 	if gen.Uniform(t, "sthird", 2) == 0 {
 		// the third plugin collides with the FIRST one's field, behind the dropped update
@@ -808,8 +866,20 @@ func forceCollision(t *rapid.T, c *Case, i, j int) {
 		// list order): three times the weight of the others
 		all = append(append(all, removableFams...), removableFams...)
 		op.Fam = gen.Pick(t, "cfam", all)
-		op.Key = rapid.SampledFrom(keysOf(op.Fam)).Draw(t, "ckey")
+		op.Key = gen.Pick(t, "ckey", keysOf(op.Fam))
 		op.Act = "set"
+		relDel := ""
+		if has(removableFams, op.Fam) && gen.Uniform(t, "crel", 2) == 0 {
+			// the later collider also marks ANOTHER item for removal whose key is a proper prefix
+			// of the contested one ("/dev/d1" next to "/dev/d10"): that releases nothing of the
+			// contested item
+			if rel := relativeKey(op.Fam, op.Key); rel != "" {
+				if len(rel) > len(op.Key) {
+					op.Key, rel = rel, op.Key
+				}
+				relDel = rel
+			}
+		}
 		for n, idx := range []int{i, j} {
 			s := &c.Chain[idx]
 			o := op
@@ -835,6 +905,9 @@ func forceCollision(t *rapid.T, c *Case, i, j int) {
 			} else {
 				s.Ops = append(s.Ops, o)
 			}
+		}
+		if relDel != "" && hasOp(&c.Chain[j], op.Fam, relDel) < 0 {
+			c.Chain[j].Ops = append(c.Chain[j].Ops, Op{Fam: op.Fam, Key: relDel, Act: "del"})
 		}
 		return
 	}
@@ -863,6 +936,17 @@ func forceCollision(t *rapid.T, c *Case, i, j int) {
 			s.Updates = append(s.Updates, Upd{Target: target, Fields: []string{field}})
 		}
 	}
+}
+
+// relativeKey returns a key of the family's alphabet that is a proper prefix of key or that
+// key is a proper prefix of ("" if none).
+func relativeKey(fam, key string) string {
+	for _, k := range keysOf(fam) {
+		if k != key && (strings.HasPrefix(key, k) || strings.HasPrefix(k, key)) {
+			return k
+		}
+	}
+	return ""
 }
 
 // forceRelease writes a conflict-free "story" for one removable item across the chain: each
